@@ -8,10 +8,14 @@ structure FwdSpec where
   pre : Option Name
   filter : Expose
   withs : List (Name × Nat)
+  /-- the forwarded module is a built-in one (`@forward "sass:math" …`) -/
+  builtin : Bool := false
 
 inductive Probe where
   | read (ns : Option Name) (k : Kind) (n : Name)
   | assign (ns n : Name) (v : Nat)
+  /-- `ns.$n: v !default` -/
+  | assignD (ns n : Name) (v : Nat)
 
 structure Scenario where
   decls : List Decl
@@ -35,6 +39,13 @@ def Scenario.module (q : ModQuirks) (sc : Scenario) : Except Err Module :=
   let decls := normDecls sc.decls
   match sc.fwd with
   | some f =>
+    if f.builtin then
+      -- `get_global_module`: no configuration; the members are the built-in module's
+      if !f.withs.isEmpty then .error .configBuiltin
+      else
+        let ms : Members := decls.map fun d => ⟨d.kind, d.name, d.val⟩
+        .ok ⟨forwardMembers q f.pre (normExpose f.filter) ms, markerSurvives q f.pre (normExpose f.filter)⟩
+    else
     match configure q.withUnknownForward (normWiths f.withs) decls with
     | .error e => .error e
     | .ok ms => .ok ⟨forwardMembers q f.pre (normExpose f.filter) ms, false⟩
@@ -74,6 +85,13 @@ def runProbe (q : ModQuirks) (sc : Scenario) (p : Probe) : Res :=
       match s.assign ns n v with
       | .error _ => .err
       | .ok s' => match s'.resolve (some ns) .var n with
+        | .ok v => .val v
+        | .error _ => .err
+    | .assignD ns n v =>
+      -- the same checks; an existing (non-null) value wins over a `!default` assignment
+      match s.assign ns n v with
+      | .error _ => .err
+      | .ok _ => match s.resolve (some ns) .var n with
         | .ok v => .val v
         | .error _ => .err
 
